@@ -5,7 +5,8 @@ R5 index hazard floor(start/dt).
 Added after the seeded-defect rounds: R6 a float strike / dt is compared with the prices unrounded; R7 payoff() keeps no memoised state; R3 the clause iterators may not filter or de-duplicate.
 Third round: R9 call histories of the clause / underlier registries on every derivative class, R9x every history of at most 2 (thorough: 3) registry operations against a reference model.
 Rounds 4-5: R2 also re-binding statements and exports of pfhedge.instruments.
-Round 7: R3 the fold over the clauses is accepted as the loop (any number of clauses) or, failing that, as the exact nesting for three registered clauses (composed closures, reduce)."""
+Round 7: R3 the fold over the clauses is accepted as the loop (any number of clauses) or, failing that, as the exact nesting for three registered clauses (composed closures, reduce).
+Round 9: R9 history 'amend' (a clause re-registered under the same name after the payoff was evaluated); the call histories are judged even when the rules on a symbolic clause list stop."""
 import ast
 
 import sympy as sp
@@ -250,7 +251,21 @@ _check_before_histories = check
 
 
 def check(ctx, run):  # noqa: F811
-    _check_before_histories(ctx, run)
+    deferred = None
+    try:
+        _check_before_histories(ctx, run)
+    except (AnalysisError, Unsupported) as ex:
+        # the rules on a derivative with an UNKNOWN number of clauses have stopped (a construct without a model for that): the call histories
+        # below work on real registries with concrete clauses and are judged all the same; the incomplete analysis is reported at the end
+        deferred = ex
+    try:
+        _histories(ctx, run)
+    finally:
+        if deferred is not None:
+            raise AnalysisError(str(deferred))
+
+
+def _histories(ctx, run):
     from ..registry import histories_rule
     histories_rule(ctx, run, "C12.R9")
     from ..registry import resimulation_rule
